@@ -16,15 +16,15 @@ CLAIM = dict(
          "fault) pair: argv/envp vectors NULL-terminated, the return point is passed only by the caller and at most once, "
          "Ok implies that no step up to exec failed and the child exec'ed exactly the configured program/argv/env/cwd/"
          "stdio/ids, Err implies a failed step and carries its positive errno, the child never gets back into the caller's "
-         "code, wait reports the child's status, nobody blocks forever (deadlock freedom). Quick: all 64 stdio tables on a base "
+         "code, wait/try_wait report the child's status on every call of a sequence (status cache, ECHILD after reaping modelled), nobody blocks forever (deadlock freedom). Quick: all 64 stdio tables on a base "
          "command and on a command using every other setting + 720 configurations of the other dimensions (args, env, cwd, own/foreign uid/gid, pgroup, closures, program present/missing) x 31 fault plans (~470k states per `start` variant); the "
-         "four deviations found in the tree (child-side `?`, negative execve errno, inverted env test, wait holding the "
-         "child's stdio pipes = deadlock) are re-exhibited by TLC on every run as an anti-vacuity test. Real code: every fault-free configuration and 3 (thorough 24) "
+         "five deviations (child-side `?`, negative execve errno, inverted env test, wait holding the "
+         "child's stdio pipes = deadlock, try_wait not caching the status) are re-exhibited by TLC on every run as an anti-vacuity test. Real code: every fault-free configuration and 3 (thorough 24) "
          "configurations per (fault, predicted outcome) class are executed in four builds - std-linked with `start`, "
          "std-linked without `start`, no-libc executable started by tiny-std's own _start (real Environment::Inherit), "
-         "no-libc no-alloc executable using the free function process::spawn::<N> - quick ~5500 runs, thorough ~50000, "
-         "with the failure injected by ptrace in the caller or in the forked child and the caller/child interleaving forced to free / caller-first / child-first in a third of the runs each; 1 run in 10 waits with a "
-         "Child::try_wait loop, every other run uses Command::args/envs instead of arg/env, a stdin pipe is fed by the "
+         "no-libc no-alloc executable using the free function process::spawn::<N> - quick ~6900 runs, thorough ~50000, "
+         "with the failure injected by ptrace in the caller or in the forked child and the caller/child interleaving forced to free / caller-first / child-first in a third of the runs each; the caller's use of the returned Child is a TLC-generated sequence of 1..3 calls over wait / try_wait / "
+         "try_wait-polled (all 39, with exit code, exit code >= 128 and SIGKILL; a status once reported must be reported again by every later call),  every other run uses Command::args/envs instead of arg/env, a stdin pipe is fed by the "
          "caller and must deliver exactly those bytes and end-of-file to the program, helpers end by exit 0/3/7 or "
          "SIGKILL/SIGTERM; each trace is accepted or rejected by TLC at the property level and "
          "its per-process call sequence / result is compared with the model's prediction.",
